@@ -48,7 +48,7 @@ fn strategy(max_m: usize, max_n: usize, work: u64) -> impl Strategy<Value = Case
         1 => Just(Shape::Disjoint),
     ];
     (variant_strategy(), hasher_strategy(), prop_oneof![2 => 1usize..8, 3 => 1usize..=max_n], shape).prop_flat_map(move |(variant, hasher, n, shape)| {
-        (crate::gen::m_strategy(2, max_m), weights(n, false), weights(n, false), prop::collection::vec(0u8..4, n), any::<u8>(), any::<u64>(), prop_oneof![3 => Just(0i32), 1 => -950i32..950]).prop_map(move |(m, w1, w2, member, entry, seed, scale)| {
+        (prop_oneof![1 => 2usize..5, 3 => crate::gen::m_strategy(2, max_m)], weights(n, false), weights(n, false), prop::collection::vec(0u8..4, n), any::<u8>(), any::<u64>(), prop_oneof![3 => Just(0i32), 1 => -950i32..950]).prop_map(move |(m, w1, w2, member, entry, seed, scale)| {
             // one case in four: both sets multiplied by a common power of two (J_P is unchanged, exactly): weights from 1e-292 to 1e298
             let (w1, w2): (Vec<f64>, Vec<f64>) = (w1.iter().map(|w| w * 2f64.powi(scale)).collect(), w2.iter().map(|w| w * 2f64.powi(scale)).collect());
             let n = w1.len();
